@@ -29,6 +29,8 @@ pub fn lp_json(calls: &[LpCall], q: f64) -> Value {
         let m = mat_json(&c.mat, q, &mut ex);
         let b = arr1_json(&c.bias, q, &mut ex);
         let cost = arr1_json(&c.cost, q, &mut ex);
+        // ill-conditioned (pscale) systems are outside the exact universe of the validator
+        ex &= c.mat.iter().chain(c.bias.iter()).all(|v| v.abs() <= 1.0e4);
         json!({"m": m, "b": b, "c": cost, "q": q as i64, "n": c.mat.ncols(), "ex": ex, "real": status_json(&c.real), "ans": status_json(&c.answer),
                "fault": match c.fault { None => "", Some(Fault::Error) => "Error", Some(Fault::Unbounded) => "Unbounded",
                                         Some(Fault::Perturbed) => "Perturbed", Some(Fault::FarOff) => "FarOff" }})
@@ -82,6 +84,8 @@ fn apply_step(t: &mut AffTree<2>, st: &Value) -> (Value, Value, Value) {
 pub fn run(sc: &Value, id: usize, out: Out) {
     let q = 1.0;
     let mut t: AffTree<2> = if sc.get("schema").is_some() { crate::schema::make(&sc["schema"]) } else { build(sc["lhs"].as_array().unwrap()) };
+    let exps = crate::afftree::apply_pscale(&mut t, sc.get("pscale").and_then(|v| v.as_str()).unwrap_or(""));
+    let tree_json = |t: &AffTree<2>, q: f64| crate::afftree::tree_json_ps(t, q, &exps);
     let steps = sc["steps"].as_array().cloned().unwrap_or_default();
     let faults = fault_plan(sc.get("faults").unwrap_or(&Value::Null));
     let n = steps.len();
